@@ -10,6 +10,7 @@ import Mathlib.Data.List.Sort
 import Mathlib.Data.List.GetD
 import Mathlib.Tactic.Ring
 import Mathlib.Tactic.Linarith
+import Mathlib.Algebra.Field.Basic
 
 namespace Pyiga.Restrict
 open List
@@ -538,4 +539,155 @@ theorem entry_selectMatrix (rv rf : List Nat) (B : List (List α)) (r c : Nat) (
     List.getElem?_eq_getElem hr, List.getElem?_eq_getElem hc]
 
 end ring
+
+/-! ### `np.unique(·, return_index=True)` and `combine_bcs` -/
+
+theorem le_foldl_max : ∀ (l : List Nat) (a : Nat), a ≤ l.foldl max a ∧ ∀ v ∈ l, v ≤ l.foldl max a
+  | [], a => ⟨Nat.le_refl _, fun v hv => by simp at hv⟩
+  | x :: xs, a => by
+    obtain ⟨h1, h2⟩ := le_foldl_max xs (max a x)
+    simp only [List.foldl_cons, List.mem_cons]
+    refine ⟨Nat.le_trans (Nat.le_max_left a x) h1, ?_⟩
+    rintro v (rfl | hv)
+    · exact Nat.le_trans (Nat.le_max_right a v) h1
+    · exact h2 v hv
+
+theorem mem_unique {l : List Nat} {v : Nat} : v ∈ unique l ↔ v ∈ l := by
+  unfold unique
+  simp only [List.mem_filter, List.mem_range, List.contains_iff_mem, and_iff_right_iff_imp]
+  intro hv
+  have := (le_foldl_max l 0).2 v hv
+  omega
+
+theorem unique_pairwise (l : List Nat) : (unique l).Pairwise (· < ·) :=
+  List.pairwise_lt_range.filter _
+
+/-- `idxOf` is the position of the *first* occurrence -/
+theorem idxOf_first : ∀ (l : List Nat) (a : Nat), a ∈ l →
+    l.idxOf a < l.length ∧ l.getD (l.idxOf a) 0 = a ∧ ∀ q, q < l.idxOf a → l.getD q 0 ≠ a
+  | [], a, h => by simp at h
+  | b :: l, a, h => by
+    by_cases hb : b = a
+    · subst hb
+      simp
+    · have hm : a ∈ l := by
+        rcases List.mem_cons.1 h with h | h
+        · exact absurd h.symm hb
+        · exact h
+      obtain ⟨h1, h2, h3⟩ := idxOf_first l a hm
+      rw [List.idxOf_cons_ne _ hb]
+      refine ⟨by simpa using h1, by simpa using h2, ?_⟩
+      intro q hq
+      cases q with
+      | zero => simpa using hb
+      | succ q => simpa using h3 q (by omega)
+
+theorem length_flatMap_eq {β : Type} : ∀ (bcs : List (List Nat × List β)),
+    (∀ bc ∈ bcs, bc.1.length = bc.2.length) → (bcs.flatMap (·.1)).length = (bcs.flatMap (·.2)).length
+  | [], _ => rfl
+  | bc :: bcs, h => by
+    simp only [List.flatMap_cons, List.length_append]
+    rw [h bc (by simp), length_flatMap_eq bcs (fun b hb => h b (by simp [hb]))]
+
+section
+variable {β : Type} [Inhabited β]
+
+theorem combineBcs_ok (bcs : List (List Nat × List β)) (h : ∀ bc ∈ bcs, bc.1.length = bc.2.length) :
+    combineBcs bcs = .ok (unique (bcs.flatMap (·.1)),
+      (uniqueIndex (bcs.flatMap (·.1))).map (fun k => (bcs.flatMap (·.2)).getD k default)) := by
+  unfold combineBcs
+  simp [length_flatMap_eq bcs h]
+
+theorem combineBcs_inv {bcs : List (List Nat × List β)} {ui : List Nat} {uv : List β}
+    (h : combineBcs bcs = .ok (ui, uv)) :
+    (bcs.flatMap (·.1)).length = (bcs.flatMap (·.2)).length ∧ ui = unique (bcs.flatMap (·.1)) ∧
+      uv = (uniqueIndex (bcs.flatMap (·.1))).map (fun k => (bcs.flatMap (·.2)).getD k default) := by
+  unfold combineBcs at h
+  by_cases hl : (bcs.flatMap (·.1)).length = (bcs.flatMap (·.2)).length
+  · simp only [hl, ne_eq, not_true_eq_false, if_false] at h
+    have := Except.ok.inj h
+    exact ⟨hl, (Prod.mk.inj this).1.symm, (Prod.mk.inj this).2.symm⟩
+  · simp only [ne_eq, hl, not_false_eq_true, if_true, reduceCtorEq] at h
+
+end
+
+/-- blocked numbering `i + j·N` (`bdindices + j*NN`) is injective on `i < N` -/
+theorem blocked_inj {N i i' j j' : Nat} (hi : i < N) (hi' : i' < N) (h : i + j * N = i' + j' * N) :
+    j = j' ∧ i = i' := by
+  have h1 : (i + j * N) % N = i := by rw [Nat.add_mul_mod_self_right, Nat.mod_eq_of_lt hi]
+  have h2 : (i' + j' * N) % N = i' := by rw [Nat.add_mul_mod_self_right, Nat.mod_eq_of_lt hi']
+  have hii : i = i' := by rw [← h1, h, h2]
+  subst hii
+  have hN : 0 < N := by omega
+  exact ⟨Nat.eq_of_mul_eq_mul_right hN (by omega), rfl⟩
+
+/-! ### `compute_initial_condition_01` -/
+
+section field
+open Pyiga.Slice
+variable {α : Type} [Field α]
+
+theorem getD_zipWith_of_lt {f : α → α → α} (r0 r1 : List α) (k : Nat) (h0 : k < r0.length)
+    (h1 : k < r1.length) : (List.zipWith f r0 r1).getD k 0 = f (r0.getD k 0) (r1.getD k 0) := by
+  simp [List.getD_eq_getElem?_getD, List.getElem?_zipWith, List.getElem?_eq_getElem h0,
+    List.getElem?_eq_getElem h1]
+
+theorem cramer_row0 {a b c d : α} (hD : a * d - b * c ≠ 0) (x y : α) :
+    a * ((d * x - b * y) / (a * d - b * c)) + b * ((a * y - c * x) / (a * d - b * c)) = x := by
+  have : a * ((d * x - b * y) / (a * d - b * c)) + b * ((a * y - c * x) / (a * d - b * c)) =
+      x * (a * d - b * c) / (a * d - b * c) := by ring
+  rw [this, mul_div_assoc, div_self hD, mul_one]
+
+theorem cramer_row1 {a b c d : α} (hD : a * d - b * c ≠ 0) (x y : α) :
+    c * ((d * x - b * y) / (a * d - b * c)) + d * ((a * y - c * x) / (a * d - b * c)) = y := by
+  have : c * ((d * x - b * y) / (a * d - b * c)) + d * ((a * y - c * x) / (a * d - b * c)) =
+      y * (a * d - b * c) / (a * d - b * c) := by ring
+  rw [this, mul_div_assoc, div_self hD, mul_one]
+
+variable [DecidableEq α]
+
+/-- the closed-form 2×2 solve really solves: `[[a,b],[c,d]] · [x0;x1] = [r0;r1]` column-wise -/
+theorem solve2_spec {a b c d : α} {r0 r1 x0 x1 : List α} (hlen : r0.length = r1.length)
+    (h : solve2 a b c d r0 r1 = .ok (x0, x1)) :
+    a * d - b * c ≠ 0 ∧ x0.length = r0.length ∧ x1.length = r0.length ∧
+    ∀ k, k < r0.length → a * x0.getD k 0 + b * x1.getD k 0 = r0.getD k 0 ∧
+      c * x0.getD k 0 + d * x1.getD k 0 = r1.getD k 0 := by
+  unfold solve2 at h
+  by_cases hdet : a * d - b * c = 0
+  · simp [hdet] at h
+  · simp only [hdet, if_false] at h
+    obtain ⟨rfl, rfl⟩ := Prod.mk.inj (Except.ok.inj h)
+    refine ⟨hdet, by simp [hlen], by simp [hlen], fun k hk => ?_⟩
+    have hk1 : k < r1.length := by omega
+    rw [getD_zipWith_of_lt _ _ _ hk hk1, getD_zipWith_of_lt _ _ _ hk hk1]
+    exact ⟨cramer_row0 hdet _ _, cramer_row1 hdet _ _⟩
+
+theorem initialCondition01_inv {N : List Nat} {bd : BdSpec} {a b c d : α} {c0 c1 : List α}
+    {idx : List Nat} {vals : List α} (h : initialCondition01 N bd a b c d c0 c1 = .ok (idx, vals)) :
+    ∃ ax side s0 s1 x0 x1, parseBdspec bd N.length = .ok (ax, side) ∧ c0.length = c1.length ∧
+      solve2 a b c d c0 c1 = .ok (x0, x1) ∧
+      sliceIndices ax (if side = 0 then 0 else -2) N none = .ok s0 ∧
+      sliceIndices ax ((if side = 0 then 0 else -2) + 1) N none = .ok s1 ∧
+      idx = s0 ++ s1 ∧ vals = x0 ++ x1 := by
+  unfold initialCondition01 at h
+  split at h
+  · cases h
+  · rename_i ax side hp
+    split at h
+    · cases h
+    · rename_i hlen
+      split at h
+      · cases h
+      · rename_i x0 x1 hs
+        simp only at h
+        split at h
+        · cases h
+        · rename_i s0 h0
+          split at h
+          · cases h
+          · rename_i s1 h1
+            obtain ⟨rfl, rfl⟩ := Prod.mk.inj (Except.ok.inj h)
+            exact ⟨ax, side, s0, s1, x0, x1, hp, by simpa using hlen, hs, h0, h1, rfl, rfl⟩
+
+end field
 end Pyiga.Restrict
